@@ -1341,6 +1341,11 @@ func compileFunctionExpr(context *funcContext, funcexpr *ast.FunctionExpr, ec *e
 	context.Proto.Code = context.Code.List()
 	context.Proto.DbgSourcePositions = context.Code.PosList()
 	context.Proto.DbgUpvalues = context.Upvalues.Names()
+	if len(context.Proto.DbgUpvalues) > 255 {
+		// the count is kept in 8 bits: one more would wrap, and OP_CLOSURE
+		// would run the surplus pseudo-instructions as ordinary ones
+		raiseCompileError(context, context.Proto.LineDefined, "function has more than 255 upvalues")
+	}
 	context.Proto.NumUpvalues = uint8(len(context.Proto.DbgUpvalues))
 	for _, clv := range context.Proto.Constants {
 		sv := ""
